@@ -69,9 +69,9 @@ def check_case(ctx, out, desc, a, parts_seed):
         out.count('no_sources'); return
     out.nontrivial((gen_net.shape(desc), len(src_ids)))
     out.count(f'sources:{len(src_ids)}')
-    srcv = [abs(complex(b.element.V)) for b in net.branches if np.isfinite(complex(b.element.V))]
-    scale = max([abs(x) for x in list(pot.values()) + list(v.values())] + srcv + [1e-300])   # incl. source magnitudes (cancellation)
-    iscale = max([abs(x) for x in i.values()] + [gen_net.ymax_json(jnet) * scale])
+    ps, is_ = gen_net.net_scales(net)          # incl. source magnitudes (cancellation)
+    scale = max([abs(x) for x in list(pot.values()) + list(v.values())] + [ps, 1e-300])
+    iscale = max([abs(x) for x in i.values()] + [is_, 1e-300])
     canon = dict(kinds=sorted({d['kind'] for d in desc['branches']}))
     # ---- (a) scaling
     try:
